@@ -430,3 +430,123 @@ def handle (chain : List String) (table : List Route) (r : Req) : Resp :=
   headAdjust r (serve chain table r)
 
 end CV.C11
+
+/-! ## the bundled client (`api/rest/client`) -/
+namespace CV.C11
+open CV
+
+/-- `PinOptions.ToQuery`: always replication-min, replication-max, name, mode, shard-size, user-allocations;
+    expire-at unless zero; pin-update if defined; origins if any; meta-<k> for non-empty keys -/
+def toQuery (o : Opts) : List (String × QV) :=
+  [ ("replication-min", .valid (.int o.rmin)), ("replication-max", .valid (.int o.rmax)),
+    ("name", if o.name == 0 then .empty else .valid (.nat o.name)),
+    ("mode", .valid (.mode o.mode)), ("shard-size", .valid (.nat o.shard)),
+    ("user-allocations", if o.ualloc.isEmpty then .empty else .valid (.peers (o.ualloc.map some))) ] ++
+  (if o.expire == .zero then [] else [("expire-at", .valid (.exp o.expire))]) ++
+  (match o.update with | some c => [("pin-update", .valid (.nat c))] | none => []) ++
+  (if o.origins.isEmpty then [] else [("origins", .valid (.nats o.origins))])
+
+def toQueryMeta (o : Opts) : List (Nat × Nat) := o.metadata.filter (fun kv => kv.1 != 0)
+
+/-- the options as they are after a trip through the query string -/
+def normOpts (o : Opts) : Opts := { o with metadata := metaOf o.metadata }
+
+inductive Call where
+  | id | version | peers | alerts | graph | metricNames
+  | peerAdd (s : Seg) | peerRm (s : Seg)
+  | pin (s : Seg) (o : Opts) | unpin (s : Seg) | allocation (s : Seg)
+  | pinPath (p : List Seg) (o : Opts) | unpinPath (p : List Seg)
+  | allocations (mask : Nat)
+  | status (s : Seg) (l : Bool) | recover (s : Seg) (l : Bool)
+  | statusAll (mask : Nat) (l : Bool)
+  | recoverAll (l : Bool) | repoGC (l : Bool)
+  | metrics (s : Seg)
+  deriving Repr
+
+structure CliCfg where
+  creds : Bool
+  auth : Auth      -- none | wrong | right: what the client is configured with
+  rpc : RpcMode
+
+def lit (s : String) : Seg := ⟨s, none, none⟩
+
+/-- `gopath.ParsePath` on the client side: a bare `<cid>/…` becomes `/ipfs/<cid>/…` -/
+def clientPath (p : List Seg) : Option (List Seg) :=
+  match p with
+  | [] => none
+  | k :: rest =>
+    if k.txt == "ipfs" || k.txt == "ipld" || k.txt == "ipns" then
+      (match pathOf [.alt "keyType" ["ipfs", "ipns", "ipld"], .rest "path"] p with
+       | some _ => some p
+       | none => none)
+    else if k.cid.isSome then some (lit "ipfs" :: k :: rest)
+    else none
+
+/-- `TrackerStatus.String` of a filter, read back by `TrackerStatusFromString`: a mask that is not one
+    of the named values is written as every named value it intersects — including the composite
+    names `error` (2|4|8) and `queued` (512|1024) -/
+def namedMasks : List Nat := [2, 4, 8, 14, 16, 32, 64, 128, 256, 512, 1024, 1536, 2048, 4096]
+def widen (m : Nat) : Nat :=
+  if namedMasks.contains m then m
+  else (namedMasks.filter (fun k => k &&& m != 0)).foldl (· ||| ·) 0
+
+def boolQ (l : Bool) : QV := .valid (.bool l)
+
+/-- the request a client method sends; `none` = it returns an error without sending anything -/
+def build (cfg : CliCfg) (c : Call) : Option Req :=
+  let mk (method : String) (segs : List Seg) (q : List (String × QV)) (md : List (Nat × Nat)) (b : Body) : Option Req :=
+    some { creds := cfg.creds, auth := cfg.auth, pf := false, method := method, segs := segs, slash := false,
+           query := q, md := md, body := b, rpc := cfg.rpc }
+  match c with
+  | .id => mk "GET" [lit "id"] [] [] .none
+  | .version => mk "GET" [lit "version"] [] [] .none
+  | .peers => mk "GET" [lit "peers"] [] [] .none
+  | .alerts => mk "GET" [lit "health", lit "alerts"] [] [] .none
+  | .graph => mk "GET" [lit "health", lit "graph"] [] [] .none
+  | .metricNames => mk "GET" [lit "monitor", lit "metrics"] [] [] .none
+  | .peerAdd s => mk "POST" [lit "peers"] [] [] (.peerJson s)
+  | .peerRm s => mk "DELETE" [lit "peers", s] [] [] .none
+  | .pin s o => mk "POST" [lit "pins", s] (toQuery o) (toQueryMeta o) .none
+  | .unpin s => mk "DELETE" [lit "pins", s] [] [] .none
+  | .allocation s => mk "GET" [lit "allocations", s] [] [] .none
+  | .pinPath p o => (clientPath p).bind (fun p' => mk "POST" (lit "pins" :: p') (toQuery o) (toQueryMeta o) .none)
+  | .unpinPath p => (clientPath p).bind (fun p' => mk "DELETE" (lit "pins" :: p') [] [] .none)
+  | .allocations m => mk "GET" [lit "allocations"] [("filter", if m == 0 then .empty else .valid (.str "types"))] [] .none
+  | .status s l => mk "GET" [lit "pins", s] [("local", boolQ l)] [] .none
+  | .recover s l => mk "POST" [lit "pins", s, lit "recover"] [("local", boolQ l)] [] .none
+  | .statusAll m l =>
+    mk "GET" [lit "pins"] [("local", boolQ l), ("filter", if m == 0 then .empty else .valid (.str (toString (widen m))))] [] .none
+  | .recoverAll l => mk "POST" [lit "pins", lit "recover"] [("local", boolQ l)] [] .none
+  | .repoGC l => mk "POST" [lit "ipfs", lit "gc"] [("local", boolQ l)] [] .none
+  | .metrics s => mk "GET" [lit "monitor", lit "metrics", s] [] [] .none
+
+inductive Ret where
+  | same            -- no error, and the value is the one the cluster handed to the server
+  | differ
+  | err (code : Nat)
+  | clientErr       -- refused before sending
+  deriving DecidableEq, Repr
+
+/-- does the answer to this call carry a pin with origins?  (the recording service answers Pin with the
+    pin it received and PinPath/UnpinPath with a pin carrying the received options) -/
+def answerHasOrigins : Call → Bool
+  | .pin _ o => !o.origins.isEmpty
+  | .pinPath _ o => !o.origins.isEmpty
+  | _ => false
+
+/-- `handleResponse`: 204/202 → nil; 4xx/5xx → the decoded api.Error; else decode the body into the
+    result (a pin with origins does not decode: K01) -/
+def clientRet (c : Call) (o : Resp) : Ret :=
+  if o.status == 204 || o.status == 202 then .same
+  else if decide (400 ≤ o.status) then .err o.status
+  else if answerHasOrigins c then .err o.status
+  else .same
+
+def clientCall (chain : List String) (table : List Route) (cfg : CliCfg) (c : Call) : List Op × Ret :=
+  match build cfg c with
+  | none => ([], .clientErr)
+  | some r =>
+    let o := handle chain table r
+    (o.ops, clientRet c o)
+
+end CV.C11
